@@ -297,6 +297,11 @@ func classifyB(c *EncCase) (bool, []string) {
 		if st.Clears > 0 {
 			cls = append(cls, "lzw-table-reset")
 		}
+		for _, l := range []int{1024, 2048, 3072} {
+			if st.MaxString >= l {
+				cls = append(cls, fmt.Sprintf("lzw/dict-string>=%d", l))
+			}
+		}
 	}
 	rows := c.obs.dataLen / max(spec.RowBytes(), 1)
 	nt := c.obs.dataLen >= 300 || (spec.RowBased() && rows >= 2)
